@@ -279,6 +279,9 @@ def check(c):
         if bad:
             if (not wf) and c.known_finding('loaded_not_wf'):
                 continue
+            # classifier of finding dist_sort_not_total_order: exactly this panic of the standard sort
+            if 'does not correctly implement a total order' in bad and c.known_finding('dist_sort_not_total_order'):
+                continue
             c.violation('loaded-context-crashes', {'kind': 'impl-vs-spec', 'mutation': mk, 'offset': off, 'origin_history': origin,
                                                     'image_hex': b.hex(), 'what': bad, 'model_says_well_formed': wf})
     c.extra['battery_expressions'] = {'evaluated': nexpr, 'beyond_time_budget': nskipped}
